@@ -42,6 +42,18 @@ Theorem C08_hessqr_R : forall (F : rcfType) (cut : F) (n : nat) (H : seq (seq F)
 Proof. move=> F cut n H sh h1 h2 h3; exact: hqr_compute_spec. Qed.
 Print Assumptions C08_hessqr_R.
 
+(* matrix_QtHQ() = Q' H Q: for every n >= 1, every input (entries below the sub-diagonal ignored), every shift, as an identity
+   of linear maps (mv = matrix times vector on the list representation); hypothesis: the contract of the rotation kernel, which
+   C08_rotation_spec discharges in the zero cases and the standard branch *)
+Theorem C08_hessqr_QtHQ_is_similar : forall (F : rcfType) (cut : F) (n : nat) (H : seq (seq F)) (sh : F),
+  (forall x y : F, let '(r, c, s) := compute_rotation (OpsF F) cut x y in
+     [/\ c * x - s * y = r, s * x + c * y = 0 & c ^+ 2 + s ^+ 2 = 1]) ->
+  (0 < n)%N -> size H = n -> (forall j, (j < n)%N -> size (nth [::] H j) = n) ->
+  let '(R, rs) := hqr_compute (OpsF F) cut n H sh in
+  forall x, size x = n -> mv n (hqr_QtHQ (OpsF F) R rs sh) x = apply_QtY (OpsF F) rs (mv n (hess n H) (apply_QY (OpsF F) rs x)).
+Proof. move=> F cut n H sh hrot n0 sH sc; exact: hqr_QtHQ_similar. Qed.
+Print Assumptions C08_hessqr_QtHQ_is_similar.
+
 (* Q is orthogonal: apply_QtY preserves inner products, apply_QY and apply_QtY are mutually
    inverse - for every sequence of rotations with c^2 + s^2 = 1 (what C08_rotation_spec gives) *)
 Theorem C08_Q_isometry : forall (F : rcfType) (rs : seq (F * F)) (x y : seq F), size x = size y -> normalized rs ->
